@@ -1421,7 +1421,6 @@ class BandlimitedClickFactory(FixedWaveform):
 ################################################################################
 # Wavfiles
 ################################################################################
-@fast_cache
 def load_wav(fs, filename, level=None, calibration=None, normalization=None):
     '''
     Load wav file, scale, and resample
@@ -1447,6 +1446,15 @@ def load_wav(fs, filename, level=None, calibration=None, normalization=None):
         matches the target level. If `'rms'`, rescales so that the RMS value of
         the waveform matches the target level.
     '''
+    # The scaling factor is looked up on every call: the calibration is a
+    # mutable object (e.g., `set_fixed_gain`), so it must not be part of the
+    # key under which the loaded waveform is memoised.
+    sf = None if calibration is None else float(calibration.get_sf(1e3, level))
+    return _load_wav(fs, filename, sf, normalization)
+
+
+@fast_cache
+def _load_wav(fs, filename, sf, normalization):
     log.warning('Loading %s', filename)
     file_fs, waveform = wavfile.read(filename, mmap=True)
 
@@ -1465,8 +1473,7 @@ def load_wav(fs, filename, level=None, calibration=None, normalization=None):
     else:
         raise ValueError(f'Unrecognized normalization: {normalization}')
 
-    if calibration is not None:
-        sf = calibration.get_sf(1e3, level)
+    if sf is not None:
         waveform *= sf
 
     # Resample if sampling rate does not match
